@@ -38,6 +38,7 @@ def run(ctx):
     r2_family(chk, fx)
     r3_envelope(chk, fx)
     r4_installed_reader(chk, fx)
+    r5_installed_statement(chk, fx)
 
 
 def r1_compare(chk, fx):
@@ -482,3 +483,50 @@ def r4_installed_reader(chk, fx):
     ok = len(lit) == 1 and all(_var_under(f["expr"], allowed=("Option::unwrap_or_default",)) == f["name"] for f in lit[0]["fields"])
     chk.instance("C01/R4", "Installed{ipv4, ipv6} takes the collected sets (absent family = empty set)", rn, loc_of(rt.get("sp")), holds=ok,
                  key="C01/R4 Maybe<Installed> literal wiring")
+
+
+# ---------------------------------------------------------------------------------------------
+def r5_installed_statement(chk, fx):
+    """Every policy-statement the agent installs ends in the default `then reject` — with two, one or no family terms (an evaluated
+    policy whose families are both empty is installed as name + then/reject only).  The installed-state reader must hand each of them
+    back: `compare` produces a Delete only for names it finds in the installed state, and an Update's old side only from there.
+    Decided on the paths of Maybe<Installed>::read_xml after its element loop (loop-carried variables symbolic): with the flag that the
+    <reject/> arm sets true, no path returns Ok(Maybe(None)), whatever the term variables hold."""
+    from vlib import absint as A
+    name = None
+    for n in fx.thir:
+        if n.endswith("::read_xml") and "Maybe<" + AGENT + "::policies::Installed>" in n:
+            name = n
+    if name is None:
+        raise F.AnchorLost("Maybe<Installed>::read_xml not found")
+    chk.analysed(name)
+    paths = A.Interp(fx, crates=(AGENT,), max_paths=6000).explore(name)
+    flags = set()
+    for p in paths:
+        if any(v is True and "'reject')" in k for k, v in p.assume.items()):
+            flags |= {e[1] for e in p.assigns() if e[2] == A.lit(True)}
+    if not flags:
+        raise F.AnchorLost("Maybe<Installed>::read_xml: the arm recognising <reject> sets no flag")
+    loops = sorted({(e[2] or {}).get("l", 0) for p in paths for e in p.trace if e[0] == "loop-exit"})
+    if not loops:
+        raise F.AnchorLost("Maybe<Installed>::read_xml: no element loop")
+    outer = loops[0]
+    n = 0
+    for p in paths:
+        ex = [e for e in p.trace if e[0] == "loop-exit"]
+        if p.end not in ("return", "fallthrough") or not ex or (ex[-1][2] or {}).get("l", 0) != outer:
+            continue
+        if not all(p.assume.get("«loop:%s»" % f) is True for f in flags):
+            continue
+        if not (A.is_res(p.ret) and p.ret[2] == "Ok"):
+            continue
+        n += 1
+        inner = A.payload0(p.ret)
+        got = [x for x in A.walk_value(inner) if A.is_opt(x)][:1]
+        ok = bool(got) and got[0][2] == "Some"
+        case = ", ".join("%s=%s" % (k[9:-1], v) for k, v in sorted(p.assume.items()) if k.startswith("variant:«loop:"))
+        chk.instance("C01/R5", "installed statement with the default reject is read back (%s) => %s" % (case, A.vstr(p.ret)[:70]), name,
+                     loc_of(fx.thir[name].get("sp")), holds=ok, key="C01/R5 Maybe<Installed>::read_xml statement-with-default-reject-dropped (%s)" % case,
+                     detail=None if ok else "a statement the agent installed itself vanishes from the installed state: it is never deleted once "
+                     "unmanaged, and updates are computed against nothing")
+    chk.floor("C01/R5 post-loop Ok paths with the reject flag set", n, 1)
